@@ -36,7 +36,10 @@ RULE_ADDED = (
               'ding like an encoding marker (00/02/03/04). '
               ' '
               'Round 9: signatures crafted to a chosen total DER length (64, 65, 63, 9..72 byte'
-              "s) by solving for the certifier's key. ")
+              "s) by solving for the certifier's key. "
+              ' '
+              'Round 11: elements carrying members the format does not define (extract, value, '
+              'pubkey, type ...). ')
 RULE = RULE + " " + RULE_ADDED.strip()
 ASSUMPTIONS = [
     "oracle: pv/oracle/certv1.py (own secp256k1 arithmetic, ECDSA by cryptography/OpenSSL); "
